@@ -63,7 +63,8 @@ class Point(tuple[int | None, int | None]):
         """Unary negation"""
         if self[1] is None:
             return self
-        return self.__class__(self[0], self._curve.p() - self[1], self._curve)  # type: ignore[operator]
+        # a plain point of the same curve (self may be a Generator, whose constructor takes the curve parameters)
+        return self._curve.Point(self[0], self._curve.p() - self[1])  # type: ignore[operator]
 
     def curve(self) -> Curve:
         """:return: the :class:`Curve <pycoin.ecdsa.Curve>` this point is on"""
